@@ -1077,6 +1077,11 @@ func (r *runCtx) declareSubs(cmd *cli.Cmd, c *cmdSpec, path string, late bool) {
 				cmd.Command(string(sub.Name), string(sub.Desc), cli.ActionCommand(f))
 				continue
 			}
+			// a leaf with nothing at all: no initialiser
+			if sub.Action == nil {
+				cmd.Command(string(sub.Name), string(sub.Desc), nil)
+				continue
+			}
 		}
 		cmd.Command(string(sub.Name), string(sub.Desc), func(sc *cli.Cmd) {
 			if sub.Policy != nil && !sub.PolicyLate {
